@@ -210,3 +210,19 @@ claim("C16", "proof",
       "/venv generates the fresh artefact; post-processing by black/isort/sed does not change data.",
       "z3 regex equivalence + automaton isomorphism (unbounded) + product-automaton BMC", "DESIGN.md 4/C16",
       "parsertables")
+
+claim("C17", "model_checking",
+      "z3 decides over the shipped terminal regexes that every token text (length <= 64) is in the domain of "
+      "the callback it reaches (int, float, DIGITS map), finds texts beyond the interpreter's int digit limit "
+      "on a length abstraction of the terminal (witness replayed on the real parser), and proves the "
+      "character partition sound (no terminal character set splits a class), so two strings with the same "
+      "class word lex identically; the real Unit.parse and Quantity.parse then run on one representative of "
+      "EVERY class word of length <= 4 (quick) / 6 (thorough); each parse is checked for result type, "
+      "magnitude type, allowed exceptions (ParseError/KeyError), determinism and unchanged registries on "
+      "rejection. AST side conditions: the lexer/driver raise only LarkError subclasses; every callback is "
+      "fed the terminal it expects; anonymous unit construction writes no name/symbol registry (E2).",
+      "Strings longer than the bound are not covered; which registered symbol a SYMBOL token spells is "
+      "sampled by extra representatives (m, k, s, 1, K, ohm, micro); Python's int()/float() literal grammars "
+      "are written out from the language reference.",
+      "z3 regex inclusion + solver-checked character abstraction + exhaustive class words on the real parser",
+      "DESIGN.md 4/C17", "parsertables")
